@@ -160,8 +160,8 @@ c11_run(const c11_scn *scn, c11_out *out) {
 	tp_settings_def(&s);
 	s.flags = ((scn->flags & 1) ? TP_S_F_BIND2CPU : 0) | ((scn->flags & 2) ? TP_S_F_CLOEXEC : 0);
 	s.threads_max = scn->nthreads;
-	s.tpt_on_start = hook_start;
-	s.tpt_on_stop = hook_stop;
+	s.tpt_on_start = (0 == scn->hooks_mode || 1 == scn->hooks_mode) ? hook_start : NULL;
+	s.tpt_on_stop = (0 == scn->hooks_mode || 2 == scn->hooks_mode) ? hook_stop : NULL;
 
 	tp_harness_arm();
 	if (scn->free_fd0) { /* the pool is created while descriptor 0 is free */
@@ -233,6 +233,10 @@ c11_run(const c11_scn *scn, c11_out *out) {
 		(void)!write(g_pipe[1], "y", 1);
 	(void)sent;
 
+	for (i = 0; i < scn->nthreads; i ++) {
+		if (tpt_is_running(tp_thread_get(tp, (size_t)i)))
+			out->ran_mask |= (1u << i);
+	}
 	switch (scn->shutdown_mode) {
 	case 0:
 		api_shutdown();
